@@ -9,6 +9,7 @@ import (
 	"path/filepath"
 	"sort"
 	"strings"
+	"sync"
 	"time"
 )
 
@@ -245,7 +246,40 @@ func (r *Run) ValidateTrace(fam string, col *Collector, o TLCOpts) {
 		tids = append(tids, t)
 	}
 	sort.Ints(tids)
-	path := filepath.Join(r.Out, fmt.Sprintf("%s-trace-%d.ndjson", fam, len(r.Cmds)))
+	if len(tids) == 0 {
+		r.Infra(fam + ": no events to validate")
+		return
+	}
+	// large collections are judged in several parts at once (one TLC with one worker each: a trace
+	// specification is sequential, the traces are independent of one another)
+	parts := 1
+	if len(tids) >= 400 {
+		parts = 4
+	}
+	if o.Timeout == 0 {
+		o.Timeout = 30 * time.Minute
+	}
+	var wg sync.WaitGroup
+	for k := 0; k < parts; k++ {
+		lo, hi := k*len(tids)/parts, (k+1)*len(tids)/parts
+		wg.Add(1)
+		go func(k int, part []int) {
+			defer wg.Done()
+			r.validatePart(fam, col, o, part, k)
+		}(k, tids[lo:hi])
+	}
+	wg.Wait()
+}
+
+func (r *Run) validatePart(fam string, col *Collector, o TLCOpts, tids []int, k int) {
+	r.mu.Lock()
+	r.nTraceFiles++
+	serial := r.nTraceFiles
+	r.mu.Unlock()
+	dir := filepath.Join(r.Out, fmt.Sprintf("tv-%s-%d", fam, serial))
+	os.MkdirAll(dir, 0o755)
+	defer os.RemoveAll(dir)
+	path := filepath.Join(dir, "trace.ndjson")
 	fh, err := os.Create(path)
 	if err != nil {
 		r.Infra(err.Error())
@@ -266,10 +300,12 @@ func (r *Run) ValidateTrace(fam string, col *Collector, o TLCOpts) {
 		r.Infra(fam + ": no events to validate")
 		return
 	}
-	if o.Env == nil {
-		o.Env = map[string]string{}
+	env := map[string]string{}
+	for a, b := range o.Env {
+		env[a] = b
 	}
-	o.Env["TRACE"] = path
+	env["TRACE"] = path
+	o.Env = env
 	o.Workers = 1
 	rejected := map[int]bool{}
 	o.OnLine = func(line string) {
@@ -312,18 +348,18 @@ func (r *Run) ValidateTrace(fam string, col *Collector, o TLCOpts) {
 				Detail: fmt.Sprintf("the trace specification has no step for event %d of trace %d%s: %s", l, tid, why, det)})
 		}
 	}
-	res, err := RunTLC(r.SpecDir(), r.Out, o)
+	res, err := RunTLC(r.SpecDir(), dir, o)
 	if err == nil && res != nil && res.ExitCode < 0 && !res.TimedOut && res.Violated == "" && len(res.Errors) == 0 {
 		// the JVM was killed from outside without having said anything: once more
 		for k := range rejected {
 			delete(rejected, k)
 		}
-		res, err = RunTLC(r.SpecDir(), r.Out, o)
+		res, err = RunTLC(r.SpecDir(), dir, o)
 	}
 	if err != nil || res.TimedOut || res.ExitCode != 0 || res.Violated != "" {
 		msg := ""
 		if res != nil {
-			msg = fmt.Sprintf("exit %d violated=%q errors=%v", res.ExitCode, res.Violated, res.Errors)
+			msg = fmt.Sprintf("exit %d timed-out=%v violated=%q errors=%v", res.ExitCode, res.TimedOut, res.Violated, res.Errors)
 		}
 		r.Infra(fmt.Sprintf("%s trace validation did not complete: %v %s", fam, err, msg))
 		return
